@@ -6,6 +6,11 @@ accepted schedule, over any linearly ordered field.  Formalises DESIGN.md Append
 Setting (`Uniform I ok c hv`): incident lists are consistent with `termV`, validity is edge-local,
 edge cost is a state-independent strictly positive function of the edge, the heuristic is a
 non-negative function of the vertex.
+
+`UniformCostOn I S ok c` / `UniformOn` (section "Generalisation") ask for the same only on the
+(last edge, state) pairs the search really uses (an invariant `S`) and only of calls that answer;
+every headline theorem has an `_on` version.  `UniformCost` is the special case `S := True`
+(`UniformCost.toOn`); concrete configurations meet `UniformCostOn` (`Proofs/ConfigUniform.lean`).
 -/
 import Compass.Proofs.Num
 import Compass.Model.Search
@@ -1069,6 +1074,567 @@ theorem Admissible.mono {I : Inst α} {ok : Nat → Bool} {c hv hv' : Nat → α
     (h : Admissible I ok c hv t) (hle : ∀ v, hv' v ≤ hv v) : Admissible I ok c hv' t :=
   fun v es hw => le_trans (hle v) (h v es hw)
 
+/-! ### Generalisation: premises restricted to the calls the search really makes
+
+`UniformCost` asks the frontier and traversal models to answer — and to answer uniformly — on *every*
+state vector and every "last edge".  A concrete configuration (`Config.inst`) cannot meet that: on a
+malformed state (wrong length) or an unknown last edge its traversal fails.  `UniformCostOn` asks
+only for what the search uses:
+
+* a predicate `S lastEdge state` that holds of `(none, I.init)` and is passed on by every successful
+  traversal to `(some e, result state)` — so it holds of every pair `relax` is ever called with (the
+  source's initial pair, or the pair stored in a tree entry);
+* on such pairs, *when the model answers*, the verdict is `ok e` and the charged cost is `c e`.
+
+Failing calls need no premise: a failing call fails the run, and every theorem is about runs that
+returned (a result, or "no path" — for the latter the components must not themselves answer
+"no path", `NoSpuriousNoPath`). -/
+
+/-- `UniformCost` relative to an invariant `S` of the (last edge, state) pairs, in partial-correctness
+form -/
+structure UniformCostOn (I : Inst α) (S : Option Nat → List α → Prop) (ok : Nat → Bool)
+    (c : Nat → α) : Prop where
+  incident_term : ∀ v e, e ∈ I.incident v → I.termV e = v
+  init_ok : S none I.init
+  valid_eq : ∀ e le st b, S le st → I.valid e st le = .ok b → b = ok e
+  trav_eq : ∀ e le st ac tc st', S le st → I.valid e st le = .ok true →
+    I.trav e le st = .ok (ac, tc, st') → ac + tc = c e ∧ S (some e) st'
+  cost_pos : ∀ e, 0 < c e
+
+/-- the heuristic, when it answers on a pair satisfying `S`, answers `hv v` -/
+def VertexHOn (I : Inst α) (S : Option Nat → List α → Prop) (hv : Nat → α) : Prop :=
+  ∀ v le st x, S le st → I.h v st = .ok x → x = hv v
+
+/-- `Uniform` relative to `S` -/
+structure UniformOn (I : Inst α) (S : Option Nat → List α → Prop) (ok : Nat → Bool)
+    (c : Nat → α) (hv : Nat → α) : Prop extends UniformCostOn I S ok c where
+  h_eq : VertexHOn I S hv
+  h_nonneg : ∀ v, 0 ≤ hv v
+
+/-- no component answers "no path" by itself (the Rust errors of the frontier, traversal, cost and
+termination models are other variants) -/
+structure NoSpuriousNoPath (I : Inst α) : Prop where
+  valid : ∀ e st le, I.valid e st le ≠ .error .noPath
+  trav : ∀ e le st, I.trav e le st ≠ .error .noPath
+  h : ∀ v st, I.h v st ≠ .error .noPath
+  term : TermNotNoPath I
+
+theorem UniformCost.toOn {I : Inst α} {ok : Nat → Bool} {c : Nat → α} (U : UniformCost I ok c) :
+    UniformCostOn I (fun _ _ => True) ok c where
+  incident_term := U.incident_term
+  init_ok := trivial
+  valid_eq := by
+    intro e le st b _ h
+    rw [U.valid_eq] at h
+    injection h with h
+    exact h.symm
+  trav_eq := by
+    intro e le st ac tc st' _ _ h
+    obtain ⟨ac', tc', st'', h', hc⟩ := U.trav_eq e le st
+    rw [h] at h'
+    simp only [Except.ok.injEq, Prod.mk.injEq] at h'
+    obtain ⟨h1, h2, _⟩ := h'
+    rw [h1, h2]
+    exact ⟨hc, trivial⟩
+  cost_pos := U.cost_pos
+
+theorem VertexH.toOn {I : Inst α} {hv : Nat → α} (h : VertexH I hv) :
+    VertexHOn I (fun _ _ => True) hv := by
+  intro v le st x _ hx
+  rw [h v st] at hx
+  injection hx with hx
+  exact hx.symm
+
+theorem Uniform.toOn {I : Inst α} {ok : Nat → Bool} {c hv : Nat → α} (U : Uniform I ok c hv) :
+    UniformOn I (fun _ _ => True) ok c hv :=
+  { U.toUniformCost.toOn with h_eq := VertexH.toOn U.h_eq, h_nonneg := U.h_nonneg }
+
+theorem NoSpuriousNoPath.of_uniformCost {I : Inst α} {ok : Nat → Bool} {c hv : Nat → α}
+    (U : UniformCost I ok c) (hh : VertexH I hv) (hterm : TermNotNoPath I) :
+    NoSpuriousNoPath I where
+  valid := by intro e st le; rw [U.valid_eq]; simp
+  trav := by
+    intro e le st
+    obtain ⟨ac, tc, st', h, _⟩ := U.trav_eq e le st
+    rw [h]; simp
+  h := by intro v st; rw [hh v st]; simp
+  term := hterm
+
+/-- what every tree entry records: a pair satisfying `S`, a permitted edge, that edge's cost -/
+def SolOK (S : Option Nat → List α → Prop) (ok : Nat → Bool) (c : Nat → α)
+    (sol : Nat → Option (Branch α)) : Prop :=
+  ∀ v b, sol v = some b →
+    S (some b.edge) b.state ∧ ok b.edge = true ∧ b.access + b.traversal = c b.edge
+
+theorem solOK_empty (S : Option Nat → List α → Prop) (ok : Nat → Bool) (c : Nat → α) :
+    SolOK S ok c (fun _ => none) := by
+  intro v b h; cases h
+
+theorem solOK_upd {S : Option Nat → List α → Prop} {ok : Nat → Bool} {c : Nat → α}
+    {sol : Nat → Option (Branch α)} (h : SolOK S ok c sol) (k : Nat) {b : Branch α}
+    (hb : S (some b.edge) b.state ∧ ok b.edge = true ∧ b.access + b.traversal = c b.edge) :
+    SolOK S ok c (upd sol k b) := by
+  intro v b' hb'
+  by_cases hv : v = k
+  · subst hv
+    rw [upd_same] at hb'
+    cases hb'
+    exact hb
+  · rw [upd_other _ _ hv] at hb'
+    exact h v b' hb'
+
+/-- a successful `relax` on a pair satisfying `S` is an abstract relaxation step and keeps the
+entries `SolOK` -/
+theorem relax_ok_on {I : Inst α} {S : Option Nat → List α → Prop} {ok : Nat → Bool}
+    {c hv : Nat → α} (U : UniformCostOn I S ok c) (hasT : Bool)
+    (hh : hasT = true → VertexHOn I S hv) {le : Option Nat} {st : List α} (hS : S le st)
+    {s s' : SState α} {e : Nat} (h : relax I hasT le st s e = .ok s') :
+    RStep I ok c (Hf hasT hv) s.queue s.g e s'.queue s'.g ∧
+      (SolOK S ok c s.sol → SolOK S ok c s'.sol) := by
+  unfold relax at h
+  cases hval : I.valid e st le with
+  | error k => rw [hval] at h; cases h
+  | ok b =>
+    have hb := U.valid_eq e le st b hS hval
+    rw [hval] at h
+    cases b with
+    | false =>
+      simp only at h
+      cases h
+      refine ⟨Or.inl ⟨rfl, rfl, fun hok => ?_⟩, id⟩
+      rw [← hb] at hok; cases hok
+    | true =>
+      simp only at h
+      cases htr : I.trav e le st with
+      | error k => rw [htr] at h; cases h
+      | ok r =>
+        obtain ⟨ac, tc, st'⟩ := r
+        obtain ⟨hc, hS'⟩ := U.trav_eq e le st ac tc st' hS hval htr
+        rw [htr] at h
+        simp only at h
+        cases hg : s.g (I.termV e) with
+        | none =>
+          rw [hg] at h
+          cases h
+          exact ⟨Or.inl ⟨rfl, rfl, fun _ gt hgt => by rw [hg] at hgt; cases hgt⟩, id⟩
+        | some gt =>
+          rw [hg] at h
+          simp only [hc] at h
+          cases himp : improves (gt + c e) (s.g (I.keyV e)) with
+          | false =>
+            rw [himp] at h
+            simp only [Bool.false_eq_true, if_false] at h
+            cases h
+            refine ⟨Or.inl ⟨rfl, rfl, fun _ gt' hgt' => ?_⟩, id⟩
+            rw [hg] at hgt'
+            have : gt = gt' := by simpa using hgt'
+            subst this; exact himp
+          | true =>
+            rw [himp] at h
+            simp only [if_true] at h
+            cases hhv : (if hasT = true then I.h (I.keyV e) st else Except.ok (zero : α)) with
+            | error k => rw [hhv] at h; cases h
+            | ok x =>
+              have hx : x = Hf hasT hv (I.keyV e) := by
+                cases hasT with
+                | false =>
+                  simp only [Bool.false_eq_true, if_false] at hhv
+                  injection hhv with hhv
+                  simp [Hf, ← hhv, zero_eq]
+                | true =>
+                  simp only [if_true] at hhv
+                  simp only [Hf, if_true]
+                  exact hh rfl _ le st x hS hhv
+              rw [hhv] at h
+              simp only at h
+              cases h
+              refine ⟨Or.inr ⟨gt, hb.symm, hg, himp, rfl, by rw [hx]⟩, fun hsol => ?_⟩
+              exact solOK_upd hsol _ ⟨hS', hb.symm, hc⟩
+
+/-- a `relax` whose components never answer "no path" never answers "no path" -/
+theorem relax_not_noPath {I : Inst α} (hyg : NoSpuriousNoPath I) (hasT : Bool) (le : Option Nat)
+    (st : List α) (s : SState α) (e : Nat) : relax I hasT le st s e ≠ .error .noPath := by
+  intro h
+  unfold relax at h
+  split at h
+  · rename_i k hk
+    injection h with h
+    exact hyg.valid e st le (h ▸ hk)
+  · cases h
+  · split at h
+    · rename_i k hk
+      injection h with h
+      exact hyg.trav e le st (h ▸ hk)
+    · split at h
+      · cases h
+      · simp only at h
+        split at h
+        · split at h
+          · rename_i k hk
+            injection h with h
+            subst h
+            cases hasT with
+            | false => simp at hk
+            | true => simp only [if_true] at hk; exact hyg.h _ _ hk
+          · cases h
+        · cases h
+
+theorem relaxAll_ok_on {I : Inst α} {S : Option Nat → List α → Prop} {ok : Nat → Bool}
+    {c hv : Nat → α} (U : UniformCostOn I S ok c) (hasT : Bool)
+    (hh : hasT = true → VertexHOn I S hv) {le : Option Nat} {st : List α} (hS : S le st) :
+    ∀ (es : List Nat) (s s' : SState α), relaxAll I hasT le st es s = .ok s' →
+      RSteps I ok c (Hf hasT hv) es s.queue s.g s'.queue s'.g ∧
+        (SolOK S ok c s.sol → SolOK S ok c s'.sol)
+  | [], s, s', h => by
+    simp only [relaxAll] at h
+    cases h
+    exact ⟨⟨rfl, rfl⟩, id⟩
+  | e :: es, s, s', h => by
+    simp only [relaxAll] at h
+    split at h
+    · cases h
+    · rename_i s1 h1
+      obtain ⟨r1, k1⟩ := relax_ok_on U hasT hh hS h1
+      obtain ⟨r2, k2⟩ := relaxAll_ok_on U hasT hh hS es s1 s' h
+      exact ⟨⟨s1.queue, s1.g, r1, r2⟩, fun hs => k2 (k1 hs)⟩
+
+theorem relaxAll_not_noPath {I : Inst α} (hyg : NoSpuriousNoPath I) (hasT : Bool) (le : Option Nat)
+    (st : List α) : ∀ (es : List Nat) (s : SState α),
+      relaxAll I hasT le st es s ≠ .error .noPath
+  | [], s => by simp [relaxAll]
+  | e :: es, s => by
+    intro h
+    simp only [relaxAll] at h
+    split at h
+    · rename_i k hk
+      injection h with h
+      exact relax_not_noPath hyg hasT le st s e (h ▸ hk)
+    · exact relaxAll_not_noPath hyg hasT le st es _ h
+
+/-- the loop-head invariant with the tree entries -/
+def GoodOn (I : Inst α) (S : Option Nat → List α → Prop) (ok : Nat → Bool) (c H : Nat → α)
+    (source : Nat) (target : Option Nat) (s : SState α) : Prop :=
+  Good I ok c H source target s.queue s.g ∧ SolOK S ok c s.sol
+
+/-- `runLoop_ind` for `UniformCostOn`: every way the loop can end, with the loop-head invariant and
+`SolOK` in hand at that moment.  An error `noPath` other than from the empty queue means some
+component answered "no path" itself. -/
+theorem runLoop_ind_on {I : Inst α} {S : Option Nat → List α → Prop} {ok : Nat → Bool}
+    {c hv : Nat → α} (U : UniformCostOn I S ok c)
+    {source : Nat} {target : Option Nat} (hh : target.isSome = true → VertexHOn I S hv)
+    (Post : Except ErrKind (SState α) → Prop)
+    (hnp : ∀ (s : SState α) (t : Nat),
+      GoodOn I S ok c (Hf target.isSome hv) source target s → s.queue = [] →
+      target = some t → Post (.error .noPath))
+    (hdone : ∀ s : SState α, GoodOn I S ok c (Hf target.isSome hv) source target s →
+      s.queue = [] → target = none → Post (.ok s))
+    (hpop : ∀ (s : SState α) (t : Nat),
+      GoodOn I S ok c (Hf target.isSome hv) source target s →
+      target = some t → popOk s.queue t = true →
+      Post (.ok { s with queue := s.queue.filter (fun p => !(p.1 == t)) }))
+    (herr : ∀ k, (k = .noPath → ¬ NoSpuriousNoPath I) → Post (.error k)) :
+    ∀ (sched : List Nat) (s : SState α),
+      GoodOn I S ok c (Hf target.isSome hv) source target s →
+      Post (runLoop I source target sched s) := by
+  intro sched
+  induction sched with
+  | nil =>
+    intro s hgood
+    unfold runLoop
+    cases hterm : I.term s.solSize s.iters with
+    | error k => exact herr k (fun hk hyg => hyg.term _ _ (hk ▸ hterm))
+    | ok u =>
+      simp only
+      by_cases hemp : s.queue.isEmpty = true
+      · have hq : s.queue = [] := List.isEmpty_iff.1 hemp
+        simp only [hemp, if_true]
+        cases htar : target with
+        | none => exact hdone s hgood hq htar
+        | some t => exact hnp s t hgood hq htar
+      · rw [if_neg hemp]
+        exact herr _ (by simp)
+  | cons v rest ih =>
+    intro s hgood
+    unfold runLoop
+    cases hterm : I.term s.solSize s.iters with
+    | error k => exact herr k (fun hk hyg => hyg.term _ _ (hk ▸ hterm))
+    | ok u =>
+      simp only
+      by_cases hemp : s.queue.isEmpty = true
+      · have hq : s.queue = [] := List.isEmpty_iff.1 hemp
+        simp only [hemp, if_true]
+        cases htar : target with
+        | none => exact hdone s hgood hq htar
+        | some t => exact hnp s t hgood hq htar
+      · rw [if_neg hemp]
+        by_cases hp : popOk s.queue v = true
+        · simp only [hp, Bool.not_true, Bool.false_eq_true, if_false]
+          by_cases htv : target = some v
+          · have hb : (target == some v) = true := by simp [htv]
+            simp only [hb, if_true]
+            exact hpop s v hgood htv hp
+          · have hb : (target == some v) = false := by simpa using htv
+            simp only [hb, Bool.false_eq_true, if_false]
+            split
+            · exact herr _ (by simp)
+            · rename_i lastEdge st hcur
+              have hS : S lastEdge st := by
+                by_cases hvs : v = source
+                · simp only [hvs, if_true] at hcur
+                  cases hcur
+                  exact U.init_ok
+                · simp only [hvs, if_false] at hcur
+                  split at hcur
+                  · rename_i b hb'
+                    cases hcur
+                    exact (hgood.2 v b hb').1
+                  · cases hcur
+              cases h2 : relaxAll I target.isSome lastEdge st (I.incident v)
+                  { s with queue := s.queue.filter (fun p => !(p.1 == v)) } with
+              | error k =>
+                exact herr k (fun hk hyg => relaxAll_not_noPath hyg _ _ _ _ _ (hk ▸ h2))
+              | ok s2 =>
+                simp only
+                obtain ⟨r2, k2⟩ := relaxAll_ok_on U target.isSome hh hS _ _ _ h2
+                apply ih
+                exact ⟨turn_good U.incident_term U.cost_pos hgood.1 hp htv r2, k2 hgood.2⟩
+        · have hp' : popOk s.queue v = false := by simpa using hp
+          simp only [hp', Bool.not_false, if_true]
+          exact herr _ (by simp)
+
+/-- `runLoop_ind_on` transported to `runAStar` (target other than the source) -/
+theorem runAStar_ind_on {I : Inst α} {S : Option Nat → List α → Prop} {ok : Nat → Bool}
+    {c hv : Nat → α} (U : UniformCostOn I S ok c)
+    {source : Nat} {target : Option Nat} (hh : target.isSome = true → VertexHOn I S hv)
+    (hts : target ≠ some source) (Post : Except ErrKind (SState α) → Prop)
+    (hnp : ∀ (s : SState α) (t : Nat),
+      GoodOn I S ok c (Hf target.isSome hv) source target s → s.queue = [] →
+      target = some t → Post (.error .noPath))
+    (hdone : ∀ s : SState α, GoodOn I S ok c (Hf target.isSome hv) source target s →
+      s.queue = [] → target = none → Post (.ok s))
+    (hpop : ∀ (s : SState α) (t : Nat),
+      GoodOn I S ok c (Hf target.isSome hv) source target s →
+      target = some t → popOk s.queue t = true →
+      Post (.ok { s with queue := s.queue.filter (fun p => !(p.1 == t)) }))
+    (herr : ∀ k, (k = .noPath → ¬ NoSpuriousNoPath I) → Post (.error k))
+    (sched : List Nat) : Post (runAStar I source target sched) := by
+  unfold runAStar
+  have hb : (target == some source) = false := by simpa using hts
+  simp only [hb, Bool.false_eq_true, if_false]
+  have hinit : ∀ f0 : α, f0 = Hf target.isSome hv source →
+      Post (runLoop I source target sched (initState source f0)) := by
+    intro f0 hf0
+    subst hf0
+    exact runLoop_ind_on U hh Post hnp hdone hpop herr sched _
+      ⟨init_good I ok c _ source target, solOK_empty S ok c⟩
+  cases target with
+  | none => exact hinit _ (by simp [Hf, zero_eq])
+  | some t =>
+    simp only
+    cases hh0 : I.h source I.init with
+    | error k => exact herr k (fun hk hyg => hyg.h _ _ (hk ▸ hh0))
+    | ok f0 =>
+      simp only
+      refine hinit f0 ?_
+      simp only [Hf, Option.isSome_some, if_true]
+      exact hh rfl source none I.init f0 U.init_ok hh0
+
+/-- export: the labels and entries of a successful run satisfy the loop-head invariant together with
+the queue `q` of the last loop head -/
+theorem runAStar_ok_good_on {I : Inst α} {S : Option Nat → List α → Prop} {ok : Nat → Bool}
+    {c hv : Nat → α} (U : UniformCostOn I S ok c)
+    {source : Nat} {target : Option Nat} (hh : target.isSome = true → VertexHOn I S hv)
+    (hts : target ≠ some source) {sched : List Nat} {s : SState α}
+    (hrun : runAStar I source target sched = .ok s) :
+    SolOK S ok c s.sol ∧
+    ∃ q, Good I ok c (Hf target.isSome hv) source target q s.g ∧
+      ((target = none ∧ q = [] ∧ s.queue = []) ∨
+       (∃ t, target = some t ∧ popOk q t = true ∧
+          s.queue = q.filter (fun p => !(p.1 == t)))) := by
+  refine runAStar_ind_on U hh hts
+    (fun r => ∀ s, r = .ok s → SolOK S ok c s.sol ∧
+      ∃ q, Good I ok c (Hf target.isSome hv) source target q s.g ∧
+      ((target = none ∧ q = [] ∧ s.queue = []) ∨
+       (∃ t, target = some t ∧ popOk q t = true ∧
+          s.queue = q.filter (fun p => !(p.1 == t))))) ?_ ?_ ?_ ?_ sched s hrun
+  · intro _ _ _ _ _ s h; cases h
+  · intro s0 hgood hq htar s' hs'
+    injection hs' with hs'
+    subst hs'
+    exact ⟨hgood.2, s0.queue, hgood.1, Or.inl ⟨htar, hq, hq⟩⟩
+  · intro s0 t hgood htar hpop s' hs'
+    injection hs' with hs'
+    subst hs'
+    exact ⟨hgood.2, s0.queue, hgood.1, Or.inr ⟨t, htar, hpop, rfl⟩⟩
+  · intro _ _ s h; cases h
+
+/-- export: a run that answers "no path" (and whose components do not) ended at a loop head with an
+empty queue -/
+theorem runAStar_noPath_good_on {I : Inst α} {S : Option Nat → List α → Prop} {ok : Nat → Bool}
+    {c hv : Nat → α} (U : UniformCostOn I S ok c)
+    {source : Nat} {target : Option Nat} (hh : target.isSome = true → VertexHOn I S hv)
+    (hyg : NoSpuriousNoPath I) (hts : target ≠ some source) {sched : List Nat}
+    (hrun : runAStar I source target sched = .error .noPath) :
+    ∃ g, Good I ok c (Hf target.isSome hv) source target [] g := by
+  refine runAStar_ind_on U hh hts
+    (fun r => r = .error .noPath → ∃ g, Good I ok c (Hf target.isSome hv) source target [] g)
+    ?_ ?_ ?_ ?_ sched hrun
+  · intro s0 t hgood hq _ _
+    exact ⟨s0.g, hq ▸ hgood.1⟩
+  · intro _ _ _ _ h; cases h
+  · intro _ _ _ _ _ h; cases h
+  · intro k hk h
+    injection h with h
+    exact absurd hyg (hk h)
+
+/-! #### The headline theorems for `UniformCostOn` / `UniformOn` -/
+
+/-- **Label optimality**, generalised: premises only on the pairs satisfying `S` -/
+theorem label_optimal_on {I : Inst α} {S : Option Nat → List α → Prop} {ok : Nat → Bool}
+    {c hv : Nat → α} (U : UniformOn I S ok c hv)
+    {source t : Nat} (hts : t ≠ source) (hadm : Admissible I ok c hv t)
+    {sched : List Nat} {s : SState α} (hrun : runAStar I source (some t) sched = .ok s) :
+    ∃ d, s.g t = some d ∧ (∃ es, Walk I ok source es t ∧ cost c es = d) ∧
+      ∀ es, Walk I ok source es t → d ≤ cost c es := by
+  have hts' : (some t : Option Nat) ≠ some source := by simpa using hts
+  obtain ⟨_, q, hgood, hq⟩ := runAStar_ok_good_on U.toUniformCostOn (hv := hv) (target := some t)
+    (fun _ => U.h_eq) hts' hrun
+  rcases hq with ⟨htar, _⟩ | ⟨t', htar, hpop, _⟩
+  · cases htar
+  · cases htar
+    rw [show Hf (some t).isSome hv = hv from Hf_true hv] at hgood
+    obtain ⟨ft, hmem, hmin⟩ := popOk_spec hpop
+    obtain ⟨d, hd, hft⟩ := hgood.1.qval t ft hmem
+    refine ⟨d, hd, hgood.1.sound _ _ hd, fun es hw => ?_⟩
+    have h0 := hgood.1.src_zero U.cost_pos
+    have := popped_walk hgood U.h_nonneg hadm hd hft hmin es source 0 h0 hw
+    simpa using this
+
+/-- Dijkstra: whenever the heuristic answers (on a pair satisfying `S`) it answers 0 -/
+theorem dijkstra_label_optimal_on {I : Inst α} {S : Option Nat → List α → Prop} {ok : Nat → Bool}
+    {c : Nat → α} (U : UniformCostOn I S ok c) (h0 : VertexHOn I S (fun _ => 0))
+    {source t : Nat} (hts : t ≠ source)
+    {sched : List Nat} {s : SState α} (hrun : runAStar I source (some t) sched = .ok s) :
+    ∃ d, s.g t = some d ∧ (∃ es, Walk I ok source es t ∧ cost c es = d) ∧
+      ∀ es, Walk I ok source es t → d ≤ cost c es := by
+  have U' : UniformOn I S ok c (fun _ => 0) := { U with h_eq := h0, h_nonneg := fun _ => le_refl _ }
+  exact label_optimal_on U' hts (fun v es _ => cost_nonneg U.cost_pos es) hrun
+
+theorem nopath_imp_unreachable_on {I : Inst α} {S : Option Nat → List α → Prop} {ok : Nat → Bool}
+    {c hv : Nat → α} (U : UniformCostOn I S ok c) (hh : VertexHOn I S hv)
+    (hyg : NoSpuriousNoPath I) {source t : Nat} {sched : List Nat}
+    (hrun : runAStar I source (some t) sched = .error .noPath) :
+    ¬ ∃ es, Walk I ok source es t := by
+  by_cases hts : t = source
+  · subst hts
+    simp [runAStar] at hrun
+  have hts' : (some t : Option Nat) ≠ some source := by simpa using hts
+  obtain ⟨g, hgood⟩ := runAStar_noPath_good_on U (hv := hv) (target := some t) (fun _ => hh) hyg
+    hts' hrun
+  rintro ⟨es, hw⟩
+  obtain ⟨x, hx, _⟩ := hgood.1.src
+  obtain ⟨y, hy, _⟩ := closed_walk hgood es source t x hx hw
+  obtain ⟨f, hf⟩ := hgood.2.2 t rfl y hy
+  simp at hf
+
+theorem ok_imp_reachable_on {I : Inst α} {S : Option Nat → List α → Prop} {ok : Nat → Bool}
+    {c hv : Nat → α} (U : UniformCostOn I S ok c) (hh : VertexHOn I S hv)
+    {source t : Nat} (hts : t ≠ source) {sched : List Nat} {s : SState α}
+    (hrun : runAStar I source (some t) sched = .ok s) :
+    ∃ d es, s.g t = some d ∧ Walk I ok source es t ∧ cost c es = d := by
+  have hts' : (some t : Option Nat) ≠ some source := by simpa using hts
+  obtain ⟨_, q, hgood, hq⟩ := runAStar_ok_good_on U (hv := hv) (target := some t)
+    (fun _ => hh) hts' hrun
+  rcases hq with ⟨htar, _⟩ | ⟨t', htar, hpop, _⟩
+  · cases htar
+  · cases htar
+    obtain ⟨ft, hmem, _⟩ := popOk_spec hpop
+    obtain ⟨d, hd, _⟩ := hgood.1.qval t ft hmem
+    obtain ⟨es, hw, hcost⟩ := hgood.1.sound _ _ hd
+    exact ⟨d, es, hd, hw, hcost⟩
+
+theorem ok_iff_reachable_on {I : Inst α} {S : Option Nat → List α → Prop} {ok : Nat → Bool}
+    {c hv : Nat → α} (U : UniformCostOn I S ok c) (hh : VertexHOn I S hv)
+    (hyg : NoSpuriousNoPath I) {source t : Nat} {sched : List Nat}
+    (hres : (∃ s, runAStar I source (some t) sched = .ok s) ∨
+      runAStar I source (some t) sched = .error .noPath) :
+    (∃ s, runAStar I source (some t) sched = .ok s) ↔ ∃ es, Walk I ok source es t := by
+  constructor
+  · rintro ⟨s, hs⟩
+    by_cases hts : t = source
+    · exact ⟨[], hts.symm⟩
+    · obtain ⟨_, es, _, hw, _⟩ := ok_imp_reachable_on U hh hts hs
+      exact ⟨es, hw⟩
+  · intro hex
+    rcases hres with h | h
+    · exact h
+    · exact absurd hex (nopath_imp_unreachable_on U hh hyg h)
+
+theorem nopath_iff_unreachable_on {I : Inst α} {S : Option Nat → List α → Prop} {ok : Nat → Bool}
+    {c hv : Nat → α} (U : UniformCostOn I S ok c) (hh : VertexHOn I S hv)
+    (hyg : NoSpuriousNoPath I) {source t : Nat} {sched : List Nat}
+    (hres : (∃ s, runAStar I source (some t) sched = .ok s) ∨
+      runAStar I source (some t) sched = .error .noPath) :
+    runAStar I source (some t) sched = .error .noPath ↔ ¬ ∃ es, Walk I ok source es t := by
+  constructor
+  · exact nopath_imp_unreachable_on U hh hyg
+  · intro hno
+    rcases hres with ⟨s, hs⟩ | h
+    · exact absurd ((ok_iff_reachable_on U hh hyg (Or.inl ⟨s, hs⟩)).1 ⟨s, hs⟩) hno
+    · exact h
+
+theorem tree_eq_reachable_on {I : Inst α} {S : Option Nat → List α → Prop} {ok : Nat → Bool}
+    {c : Nat → α} (U : UniformCostOn I S ok c)
+    {source : Nat} {sched : List Nat} {s : SState α}
+    (hrun : runAStar I source none sched = .ok s) (v : Nat) :
+    (∃ x, s.g v = some x) ↔ ∃ es, Walk I ok source es v := by
+  obtain ⟨_, q, hgood, hq⟩ := runAStar_ok_good_on U (hv := fun _ => (0 : α)) (target := none)
+    (fun h => by cases h) (by simp) hrun
+  rcases hq with ⟨_, hq, _⟩ | ⟨t', htar, _⟩
+  · subst hq
+    constructor
+    · rintro ⟨x, hx⟩
+      obtain ⟨es, hw, _⟩ := hgood.1.sound _ _ hx
+      exact ⟨es, hw⟩
+    · rintro ⟨es, hw⟩
+      obtain ⟨x, hx, _⟩ := hgood.1.src
+      obtain ⟨y, hy, _⟩ := closed_walk hgood es source v x hx hw
+      exact ⟨y, hy⟩
+  · cases htar
+
+theorem tree_labels_optimal_on {I : Inst α} {S : Option Nat → List α → Prop} {ok : Nat → Bool}
+    {c : Nat → α} (U : UniformCostOn I S ok c)
+    {source : Nat} {sched : List Nat} {s : SState α}
+    (hrun : runAStar I source none sched = .ok s) (v : Nat) (x : α) (hx : s.g v = some x) :
+    (∃ es, Walk I ok source es v ∧ cost c es = x) ∧
+      ∀ es, Walk I ok source es v → x ≤ cost c es := by
+  obtain ⟨_, q, hgood, hq⟩ := runAStar_ok_good_on U (hv := fun _ => (0 : α)) (target := none)
+    (fun h => by cases h) (by simp) hrun
+  rcases hq with ⟨_, hq, _⟩ | ⟨t', htar, _⟩
+  · subst hq
+    refine ⟨hgood.1.sound _ _ hx, fun es hw => ?_⟩
+    have h0 := hgood.1.src_zero U.cost_pos
+    obtain ⟨y, hy, hyle⟩ := closed_walk hgood es source v 0 h0 hw
+    rw [hx] at hy
+    have : x = y := by simpa using hy
+    rw [this]; simpa using hyle
+  · cases htar
+
+/-- every entry of the returned tree satisfies `S`, has a permitted edge and carries that edge's
+cost (any target, also target = source where the tree is empty) -/
+theorem runAStar_solOK_on {I : Inst α} {S : Option Nat → List α → Prop} {ok : Nat → Bool}
+    {c hv : Nat → α} (U : UniformCostOn I S ok c)
+    {source : Nat} {target : Option Nat} (hh : target.isSome = true → VertexHOn I S hv)
+    {sched : List Nat} {s : SState α} (hrun : runAStar I source target sched = .ok s) :
+    SolOK S ok c s.sol := by
+  by_cases hts : target = some source
+  · subst hts
+    simp only [runAStar, beq_self_eq_true, if_true] at hrun
+    injection hrun with hrun
+    subst hrun
+    exact solOK_empty S ok c
+  · exact (runAStar_ok_good_on U hh hts hrun).1
+
 /-! ### Non-vacuity: a concrete instance over ℚ
 
 Four vertices `0..3`, seven edges (edge 6 is a forbidden shortcut `0 → 3`, edge 5 closes a cycle),
@@ -1223,6 +1789,71 @@ example : ¬ ∃ es, Walk exInst exOk 0 es 7 :=
 
 example : ∃ es, Walk exInst exOk 0 es 3 ∧ cost exCost es = 3 :=
   ⟨[0, 2, 3], by simp [Walk, exInst, exOk, exIncident, exTermV, exKeyV], by norm_num [cost, exCost]⟩
+
+/-! #### Non-vacuity of the generalisation: an instance that needs the invariant
+
+`exInstS` carries a one-slot state that every traversal rewrites.  On a malformed state (any other
+length) its frontier model lets the forbidden shortcut through and its traversal charges nothing:
+`UniformCost` fails, `UniformCostOn` holds with the invariant "the state has one slot" — which the
+initial state satisfies and every traversal passes on — and the `_on` theorems apply to its runs. -/
+
+def exInstS : Inst ℚ :=
+  { exInst with
+    init := [0]
+    valid := fun e st _ => .ok (if st.length = 1 then exOk e else true)
+    trav := fun e _ st =>
+      if st.length = 1 then .ok (1 / 4, exCost e - 1 / 4, st.map (· + exCost e)) else .ok (0, 0, st) }
+
+theorem ex_uniform_on : UniformOn exInstS (fun _ st => st.length = 1) exOk exCost exH where
+  incident_term := ex_uniform.incident_term
+  init_ok := rfl
+  valid_eq := by
+    intro e le st b hS h
+    simp only [exInstS, hS, if_true, Except.ok.injEq] at h
+    exact h.symm
+  trav_eq := by
+    intro e le st ac tc st' hS _ h
+    simp only [exInstS, hS, if_true, Except.ok.injEq, Prod.mk.injEq] at h
+    obtain ⟨h1, h2, h3⟩ := h
+    subst h1 h2 h3
+    exact ⟨by ring, by simpa using hS⟩
+  cost_pos := exCost_pos
+  h_eq := by
+    intro v le st x _ h
+    simp only [exInstS, exInst, Except.ok.injEq] at h
+    exact h.symm
+  h_nonneg := ex_uniform.h_nonneg
+
+/-- the old setting does not cover it: on the empty state the traversal charges 0 -/
+theorem ex_not_uniformCost : ¬ UniformCost exInstS exOk exCost := by
+  intro U
+  obtain ⟨ac, tc, st', h, hc⟩ := U.trav_eq 0 none []
+  simp only [exInstS, List.length_nil, Nat.zero_ne_one, if_false, Except.ok.injEq,
+    Prod.mk.injEq] at h
+  obtain ⟨h1, h2, _⟩ := h
+  rw [← h1, ← h2] at hc
+  have := exCost_pos 0
+  linarith
+
+theorem ex_admissible_S : Admissible exInstS exOk exCost exH 3 :=
+  fun v es hw => ex_admissible v es ((Walk.congr (I := exInst) (I' := exInstS) rfl rfl rfl es v 3).1 hw)
+
+theorem ex_run_ok_S : ∃ s, runAStar exInstS 0 (some 3) [0, 1, 2, 3] = .ok s ∧ s.g 3 = some 3 := by
+  have h : labelOf (runAStar exInstS 0 (some 3) [0, 1, 2, 3]) 3 = some (some 3) := by
+    decide +kernel
+  cases hr : runAStar exInstS 0 (some 3) [0, 1, 2, 3] with
+  | error k => rw [hr] at h; simp [labelOf] at h
+  | ok s =>
+    rw [hr] at h
+    simp only [labelOf, Option.some.injEq] at h
+    exact ⟨s, rfl, h⟩
+
+example : ∀ es, Walk exInstS exOk 0 es 3 → 3 ≤ cost exCost es := by
+  obtain ⟨s, hrun, hs⟩ := ex_run_ok_S
+  obtain ⟨d, hd, _, hmin⟩ := label_optimal_on ex_uniform_on (by decide) ex_admissible_S hrun
+  rw [hs] at hd
+  have : (3 : ℚ) = d := by simpa using hd
+  rw [this]; exact hmin
 
 end Example
 
